@@ -76,12 +76,23 @@ func init() {
 
 func init() {
 	Registry["C06"] = func(c *Ctx) (int, error) {
-		return RunWire(c, &WireSpec{GenModule: "Gen_Wire", GenConsts: map[string]string{"OptMode": `"default"`, "ValMode": `"all"`, "Muts": `"none"`}, GenInvs: wireTheorems,
+		// the bounds checks are emitted by templates that differ per option set: cuts also under option sets
+		opts := &WireSpec{GenModule: "Gen_Wire", GenConsts: map[string]string{"OptMode": `"cover"`, "ValMode": `"few"`, "Muts": `"none"`}, GenInvs: []string{"Export"},
+			Op: "cuts", JudgeProp: "C06", DevProps: []string{"C06", "C07"}, Level: "model_checking",
+			Rule: "every cut of the first three values of a seed-rotating third of the schemas, generated under all five options and under a second seed-chosen option set of the pairwise cover",
+			CaseFilter: func(s *wireSchema, cs *wireCase) bool {
+				if len(cs.Enc) > 200 || (cs.Sid+c.Seed)%3 != 0 {
+					return false
+				}
+				return cs.Mask == 31 || cs.Mask == []int{7, 25, 10, 21, 14, 19, 28, 3}[(cs.Sid/3+c.Seed)%8]
+			},
+			Nontrivial: func(s *wireSchema, cs *wireCase) bool { return len(cs.Enc) > 2 }}
+		return RunWireParts(c, []*WireSpec{{GenModule: "Gen_Wire", GenConsts: map[string]string{"OptMode": `"default"`, "ValMode": `"all"`, "Muts": `"none"`}, GenInvs: wireTheorems,
 			Op: "cuts", JudgeProp: "C06", DevProps: []string{"C06", "C07"}, Level: "model_checking",
 			Rule: "cases = TLC-enumerated (shape x context x value); for each, EVERY cut point 0 <= k < len(reference encoding) is fed to UnmarshalBebop and to DecodeBebop (exhaustive per value); PrefixIsError is model-checked on the ideal decoder for the same cuts; a case is non-trivial if its encoding has more than 2 bytes",
 			Assume: append([]string{"'out of proportion' is measured as TotalAlloc delta > 64*len(input)+64KiB; hangs by a 20s watchdog; the worker runs under ulimit -v"}, wireAssume...),
 			CaseFilter: func(s *wireSchema, cs *wireCase) bool { return len(cs.Enc) <= 400 },
-			Nontrivial: func(s *wireSchema, cs *wireCase) bool { return len(cs.Enc) > 2 }})
+			Nontrivial: func(s *wireSchema, cs *wireCase) bool { return len(cs.Enc) > 2 }}, opts})
 	}
 }
 
